@@ -314,7 +314,7 @@ def toDictL (c : ECfg) (L : Lim) (kf vf : Value â†’ RL Value) (acc : KV) : VL â†
       let acc' := Seq.dSet acc k v
       measure L (plainDictSize c acc')
       toDictL c L kf vf acc' xs e
-    else .error (.base .type)
+    else .error (.base (keyErr k))
 
 def drain (s : VL Ã— Option LErr) : RL VL :=
   match s.2 with
@@ -384,23 +384,71 @@ def indexerV (r : ObjL) (args : VL) : Eval.R Value :=
     | some i => liftSeq (Seq.pyIndex l i)
     | none => .error .noFunction
   | .val (.dict d), [k] =>
-    if hashable k then (match Seq.dGet d k with | some v => .ok v | none => .error .key) else .error .type
+    if hashable k then (match Seq.dGet d k with | some v => .ok v | none => .error .key) else .error (keyErr k)
   | .val (.dict d), [k, dflt] =>
-    if hashable k then .ok ((Seq.dGet d k).getD dflt) else .error .type
+    if hashable k then .ok ((Seq.dGet d k).getD dflt) else .error (keyErr k)
   | _, _ => .error .noFunction
 
 def indexerL (c : ECfg) (L : Lim) (r : ObjL) (args : VL) : RL ObjL := do
   let v â† withConv (indexerV r args) (do measure L (objSz c r); measureEach L (args.map (sizeofV c)))
   pure (.val v)
 
-/-- `x.name` for one element of a collection: one `#operator_.` call -/
-def memberVL (c : ECfg) (L : Lim) (name : Name) (x : Value) : RL Value := do
+/-- `x.name` for an element that is not a collection: `dict_keyword_access`, or `get_property` -/
+def memberFlatL (c : ECfg) (L : Lim) (name : Name) (x : Value) : RL Value := do
   let v â† (match Eval.memberV name x with
     -- neither a dict nor a collection: `get_property(obj, name)` binds the object, then `#property#name` is not found
     | .error .unknownFunction => (do measure L (sizeofV c x); .error (.base .unknownFunction) : RL Value)
     | res => withConv res (measure L (sizeofV c x)))
   measure L (sizeofV c v)
   pure v
+
+mutual
+/-- `x.name` for one element of a collection: one `#operator_.` call.  An element that is a collection
+    itself goes to `collection_attribution` again: it is bound to the `Iterable()` parameter (measured; a
+    sized collection is refused by `len` at once, an iterator is wrapped into the counting generator), the
+    call returns a `map` object (measured as the result of the call) whose items - one more `#operator_.`
+    call each - are computed when somebody consumes it; as in `Eval` that object is data of the outer
+    projection, so it must not carry an exception (`toVL`: a limit exception waiting in it is "no prediction"). -/
+def memberVL (c : ECfg) (L : Lim) (name : Name) : Value â†’ RL Value
+  | .tuple l => do
+    measure L (sizeofV c (.tuple l)); limitLen L l.length
+    let s â† memberVLs c L name l
+    let v â† toVL (.lazy s.1 s.2)
+    measure L (sizeofV c v)
+    pure v
+  | .list l => do
+    measure L (sizeofV c (.list l)); limitLen L l.length
+    let s â† memberVLs c L name l
+    let v â† toVL (.lazy s.1 s.2)
+    measure L (sizeofV c v)
+    pure v
+  | .iter l => do
+    measure L (sizeofV c (.iter l))
+    let s â† memberVLs c L name l
+    let v â† toVL (ObjL.lazy (limitLazy L s).1 (limitLazy L s).2)
+    measure L (sizeofV c v)
+    pure v
+  | .null => memberFlatL c L name .null
+  | .bool b => memberFlatL c L name (.bool b)
+  | .int i => memberFlatL c L name (.int i)
+  | .flt f => memberFlatL c L name (.flt f)
+  | .str t => memberFlatL c L name (.str t)
+  | .dict d => memberFlatL c L name (.dict d)
+  | .set t => memberFlatL c L name (.set t)
+  | .host h => memberFlatL c L name (.host h)
+/-- `map(lambda t: operator(t, name), l)` under the limits (= `mapL (memberVL c L name) l none`) -/
+def memberVLs (c : ECfg) (L : Lim) (name : Name) : List Value â†’ RL (VL Ã— Option LErr)
+  | [] => .ok ([], none)
+  | x :: xs => do
+    match â† capture (memberVL c L name x) with
+    | .error er => pure ([], some er)
+    | .ok v => let r â† memberVLs c L name xs; pure (v :: r.1, r.2)
+end
+
+theorem memberVLs_eq (c : ECfg) (L : Lim) (name : Name) :
+    âˆ€ l : List Value, memberVLs c L name l = mapL (memberVL c L name) l none
+  | [] => by rw [memberVLs]; rfl
+  | x :: xs => by rw [memberVLs, mapL, memberVLs_eq c L name xs]
 
 def memberOfL (c : ECfg) (L : Lim) (r : ObjL) (name : Name) : RL ObjL :=
   match r with
@@ -409,6 +457,7 @@ def memberOfL (c : ECfg) (L : Lim) (r : ObjL) (name : Name) : RL ObjL :=
     match Seq.dGet d (.str name) with
     | some v => pure (.val v)
     | none => .error (.base .key)
+  | .val (.set _) => .error (.base .outOfDomain)
   | r =>
     match toIterL r with
     | some _ => do
@@ -420,7 +469,8 @@ def memberOfL (c : ECfg) (L : Lim) (r : ObjL) (name : Name) : RL ObjL :=
       .error (.base .unknownFunction)
 
 def mkDictL (ps : KV) : RL ObjL :=
-  if ps.all (fun p => hashable p.1) then .ok (.val (.dict (Seq.dOfPairs ps))) else .error (.base .type)
+  if ps.all (fun p => hashable p.1) then .ok (.val (.dict (Seq.dOfPairs ps)))
+  else .error (.base (if ps.any (fun p => hasIter p.1) then .outOfDomain else .type))
 
 /-! ## `list(...)`: iterators among the arguments are opened, each through `limit_iterable`; the
 flattened stream is the `Iterable()` argument of `to_list` -/
@@ -694,7 +744,7 @@ def callMethodL (c : ECfg) (L : Lim) (ev : EvL) (C : Ctx) (bad : Eval.Err) (r : 
       let ko â† ev C k
       let kv â† toVL ko
       measure L (objSz c r); measure L (sizeofV c kv)
-      if hashable kv then pure (.val ((Seq.dGet d kv).getD .null)) else .error (.base .type)
+      if hashable kv then pure (.val ((Seq.dGet d kv).getD .null)) else .error (.base (keyErr kv))
     | _ => .error (.base bad)
   | .get, [k, dflt] =>
     match r with
@@ -704,7 +754,7 @@ def callMethodL (c : ECfg) (L : Lim) (ev : EvL) (C : Ctx) (bad : Eval.Err) (r : 
       let dobj â† ev C dflt
       let dv â† toVL dobj
       measure L (objSz c r); measure L (sizeofV c kv); measure L (sizeofV c dv)
-      if hashable kv then pure (.val ((Seq.dGet d kv).getD dv)) else .error (.base .type)
+      if hashable kv then pure (.val ((Seq.dGet d kv).getD dv)) else .error (.base (keyErr kv))
     | _ => .error (.base bad)
   | .unpack, names =>
     withIter c L bad r (unpackNames ev C bad names) fun nm s => do
